@@ -163,14 +163,43 @@ Proof.
   cbn [negb]. fold inv. rewrite Hlu, Hk. reflexivity.
 Qed.
 
+(* the array, field and streamed forms of the same call return the same payload values *)
+Theorem oml_forms_agree ver1 cs1 fm1 sinks1 mk1 ver2 cs2 fm2 sinks2 mk2 :
+  streamable ver1 fm1 mk1 = false -> (fm1 = FArrSink -> sinks1 = zero_sinks L srcs) ->
+  streamable ver2 fm2 mk2 = false -> (fm2 = FArrSink -> sinks2 = zero_sinks L srcs) ->
+  exists o1 o2, ordered_merge_left ver1 cs1 L R srcs fm1 sinks1 mk1 lu true = Ok o1 /\
+                ordered_merge_left ver2 cs2 L R srcs fm2 sinks2 mk2 lu true = Ok o2 /\
+                oml_payloads o1 = oml_payloads o2.
+Proof.
+  intros H1 Z1 H2 Z2.
+  destruct (oml_inmemory_correct ver1 cs1 fm1 sinks1 mk1 H1 Z1) as (o1 & E1 & P1 & _).
+  destruct (oml_inmemory_correct ver2 cs2 fm2 sinks2 mk2 H2 Z2) as (o2 & E2 & P2 & _).
+  exists o1, o2. rewrite P1, P2. auto.
+Qed.
+
+Theorem oml_streamed_agrees_both_unique ver cs0 fm sinks0 mk cs :
+  lu = true -> 1 <= cs ->
+  streamable ver fm mk = false -> (fm = FArrSink -> sinks0 = zero_sinks L srcs) ->
+  exists o1 o2, ordered_merge_left ver cs0 L R srcs fm sinks0 mk lu true = Ok o1 /\
+                ordered_merge_left Fixed cs L R srcs FFldSink [] MFld lu true = Ok o2 /\
+                oml_payloads o1 = oml_payloads o2.
+Proof.
+  intros Hlu Hcs H1 Z1.
+  destruct (oml_inmemory_correct ver cs0 fm sinks0 mk H1 Z1) as (o1 & E1 & P1 & _).
+  exists o1, (mk_oml None (Some expected_cols) (Some jm)).
+  rewrite (oml_streamed_both_unique_correct cs Hlu Hcs), P1. auto.
+Qed.
+
+End OML.
+
 (* row-by-row reading (the property text): row r holds the payload of THE right row with
    the same key, the empty value 0 when there is none *)
-Theorem left_payload_rows s r : In s srcs -> 0 <= r < len L ->
+Theorem left_payload_rows (L R s:list Z) r : ssorted R -> 0 <= r < len L ->
   len (left_payload 0 L R s) = len L /\
   ((exists j, 0 <= j < len R /\ nthZ R j = nthZ L r /\ nthZ (left_payload 0 L R s) r = nthZ s j) \/
    ((forall j, 0 <= j < len R -> nthZ R j <> nthZ L r) /\ nthZ (left_payload 0 L R s) r = 0)).
 Proof.
-  intros Hs Hr. rewrite (left_payload_unique 0 L R s HR). rewrite len_map. split; [reflexivity|].
+  intros HR Hr. rewrite (left_payload_unique 0 L R s HR). rewrite len_map. split; [reflexivity|].
   assert (Hrow : nthZ (map (fun key => pick 0 s (look R key)) L) r = pick 0 s (look R (nthZ L r)))
     by (unfold nthZ; exact (nthd_map (fun key => pick 0 s (look R key)) 0 0 L r Hr)).
   rewrite Hrow. pose proof (look_spec R (nthZ L r) HR) as Hl.
@@ -179,7 +208,6 @@ Proof.
   - right. split; [exact (proj1 Hl)|reflexivity].
 Qed.
 
-End OML.
 
 (* ------------------------------------------------------------------ the code as found *)
 (* F-C19a, Session level, a chunk size larger than both inputs (as in production): the streamed
